@@ -594,6 +594,27 @@ func vTempFile(tag string) string {
 	return name
 }
 
+// vSameMultisetDeep: multiset comparison with structural equality of the members.
+func vSameMultisetDeep(got, want []interface{}) bool {
+	if len(got) != len(want) {
+		return false
+	}
+	used := make([]bool, len(want))
+	for i := range got {
+		found := false
+		for j := range want {
+			if !used[j] && vDeepEq(got[i], want[j]) {
+				used[j], found = true, true
+				break
+			}
+		}
+		if !found {
+			return false
+		}
+	}
+	return true
+}
+
 // vUnwrap converts named map types of the package under test (mxj.Map, mxj.MapSeq) to
 // map[string]interface{}; set by the package-specific part of the prelude.
 var vUnwrap = func(v interface{}) interface{} { return v }
